@@ -538,9 +538,10 @@ class CompDomain(Domain):
             return [("ok", Opaque("decoded"), state)]
         if name == "self._compress":
             self.compress_args.append((node, args[0] if args else None))
-            return [("ok", Comp(args[0]) if args else TOP, state)]
+            # (the compressor is code the caller supplies: it may refuse its input)
+            return [("ok", Comp(args[0]) if args else TOP, state), ("exc", Exc(ORD, "CompressorError", node.lineno), state)]
         if name == "self._decompress":
-            return [("ok", Decomp(args[0]) if args else TOP, state)]
+            return [("ok", Decomp(args[0]) if args else TOP, state), ("exc", Exc(ORD, "CompressorError", node.lineno), state)]
         if name == "len" and args:
             return [("ok", LenOf(args[0]), state)]
         if name.startswith("self._") and name.count(".") == 1 and self.fn is not None and self.fn.cls is not None:
